@@ -174,7 +174,7 @@ pub fn gated_case(p: &Profile) -> BoxedStrategy<Case> {
             }
             callers.extend(free_callers);
             let must: Vec<u8> = (k as u8..objects).collect();
-            let cfg = Cfg { pool: p0, objects, gates: k as u8, streams: 0, level: Level::Desync, unlock_points, spurious: vec![], pre_open: vec![], root_holds: true, double_wake: false, gate_keep_all: false, stream_always_register: false, keep_going_after_early_destroy: false, despawn_without_quiescence: false, unwinding_drops: false, consumer_probe_polls: false, chained_streams: false, stream_self_wakes: 0, guard_syncs: false };
+            let cfg = Cfg { pool: p0, objects, gates: k as u8, streams: 0, level: Level::Desync, unlock_points, spurious: vec![], pre_open: vec![], root_holds: true, double_wake: false, gate_keep_all: false, stream_always_register: false, keep_going_after_early_destroy: false, despawn_without_quiescence: false, unwinding_drops: false, consumer_probe_polls: false, chained_streams: false, stream_self_wakes: 0, guard_syncs: false, stream_wakes_on_drop: false };
             let phase0 = Phase { callers, ..Default::default() };
             let phase1 = Phase { root: vec![RootAct::SetPoolPublic { n, atomic: nraw % 4 != 0 }], must_finish_objs: must, ..Default::default() };
             return Case { cfg, phases: vec![phase0, phase1], sched };
@@ -211,7 +211,7 @@ pub fn gated_case(p: &Profile) -> BoxedStrategy<Case> {
         let _ = first_free;
         callers.extend(free_callers);
         let must: Vec<u8> = (k as u8..objects).collect();
-        let cfg = Cfg { pool, objects, gates, streams: 0, level: Level::Desync, unlock_points, spurious: vec![], pre_open: vec![], root_holds: true, double_wake: false, gate_keep_all: false, stream_always_register: false, keep_going_after_early_destroy: false, despawn_without_quiescence: false, unwinding_drops: false, consumer_probe_polls: false, chained_streams: false, stream_self_wakes: 0, guard_syncs: false };
+        let cfg = Cfg { pool, objects, gates, streams: 0, level: Level::Desync, unlock_points, spurious: vec![], pre_open: vec![], root_holds: true, double_wake: false, gate_keep_all: false, stream_always_register: false, keep_going_after_early_destroy: false, despawn_without_quiescence: false, unwinding_drops: false, consumer_probe_polls: false, chained_streams: false, stream_self_wakes: 0, guard_syncs: false, stream_wakes_on_drop: false };
         let phase0 = Phase { callers, must_finish_objs: if k > 0 { must } else { vec![] }, ..Default::default() };
         Case { cfg, phases: vec![phase0], sched }
     })
@@ -370,7 +370,7 @@ pub fn panic_case(p: &Profile) -> BoxedStrategy<Case> {
             };
             ph2.push(vec![Op::Attempt { o: 0, kind, id: 0 }]);
         }
-        let cfg = Cfg { pool, objects, gates: 2, streams: 0, level: Level::Desync, unlock_points, spurious: vec![], pre_open: vec![], root_holds: true, double_wake: false, gate_keep_all: false, stream_always_register: false, keep_going_after_early_destroy: false, despawn_without_quiescence: false, unwinding_drops: false, consumer_probe_polls: false, chained_streams: false, stream_self_wakes: 0, guard_syncs };
+        let cfg = Cfg { pool, objects, gates: 2, streams: 0, level: Level::Desync, unlock_points, spurious: vec![], pre_open: vec![], root_holds: true, double_wake: false, gate_keep_all: false, stream_always_register: false, keep_going_after_early_destroy: false, despawn_without_quiescence: false, unwinding_drops: false, consumer_probe_polls: false, chained_streams: false, stream_self_wakes: 0, guard_syncs, stream_wakes_on_drop: false };
         let phase0 = Phase { callers, expect_panicked: if second { vec![0, 1] } else { vec![0] }, ..Default::default() };
         let phase1 = Phase { callers: ph2, capacity_probe: true, root: if stale_rewake { vec![RootAct::Rewake { g: 0 }] } else { vec![] }, ..Default::default() };
         if quiet {
@@ -642,6 +642,7 @@ pub fn labels(id: &str, case: &Case, out: &Outcome) -> Vec<String> {
     flag(s.inline_polls > 0, "inline-task-polled-from-a-waker");
     flag(s.stream_self_wakes > 0, "stream-woke-itself-during-poll_next");
     flag(s.chained_closes > 0, "stream-ended-by-drop-of-another-pipe");
+    flag(s.stream_drop_wakes > 0, "stream-woke-its-waker-from-its-destructor");
     flag(s.consumer_probe_pending > 0, "consumer-polled-with-two-wakers");
     flag(s.unwinding_last_owner_drops > 0, "last-owner-dropped-while-unwinding");
     flag(case.cfg.unwinding_drops, "unwinding-drops");
